@@ -573,20 +573,25 @@ class ACSE:
             primitive = self.dul.receive_pdu(wait=True, timeout=self.acse_timeout)
             if primitive is None:
                 # No response received within timeout window
-                LOGGER.info("Aborting Association")
-                self.send_abort(0x02)
-                self.assoc.is_aborted = True
-                self.assoc.is_established = False
-                evt.trigger(self.assoc, evt.EVT_ABORTED, {})
+                # (unless a concurrent abort() has already aborted and reported it)
+                if not self.assoc.is_aborted:
+                    LOGGER.info("Aborting Association")
+                    self.send_abort(0x02)
+                    self.assoc.is_aborted = True
+                    self.assoc.is_established = False
+                    evt.trigger(self.assoc, evt.EVT_ABORTED, {})
+
                 self.assoc.kill()
                 return
 
             if isinstance(primitive, (A_ABORT, A_P_ABORT)):
                 # Received A-ABORT/A-P-ABORT during association release
-                LOGGER.info("Association Aborted")
-                self.assoc.is_aborted = True
-                self.assoc.is_established = False
-                evt.trigger(self.assoc, evt.EVT_ABORTED, {})
+                if not self.assoc.is_aborted:
+                    LOGGER.info("Association Aborted")
+                    self.assoc.is_aborted = True
+                    self.assoc.is_established = False
+                    evt.trigger(self.assoc, evt.EVT_ABORTED, {})
+
                 self.assoc.kill()
                 return
 
